@@ -1,0 +1,25 @@
+//go:build verif
+
+package codes
+
+import (
+	"encoding/json"
+	"testing"
+
+	"github.com/gotid/god/internal/verifdrv"
+	"google.golang.org/grpc/codes"
+	"google.golang.org/grpc/status"
+)
+
+// TestVerifDriver: {"arg": c} -> Acceptable(error with gRPC code c) (code 0: nil error).
+func TestVerifDriver(t *testing.T) {
+	verifdrv.Run(t, func(raw json.RawMessage) any {
+		var c struct {
+			Arg int64 `json:"arg"`
+		}
+		if err := json.Unmarshal(raw, &c); err != nil {
+			return map[string]any{"error": err.Error()}
+		}
+		return map[string]any{"ok": Acceptable(status.Error(codes.Code(c.Arg), "verif"))}
+	})
+}
